@@ -32,6 +32,22 @@ type rtConfig struct {
 	Flush   map[int]bool // flush after the i-th encode
 	Reader  string       // bytes | bufio | onebyte | chunk
 	Pointer bool         // ReadFile target is a pointer to the struct
+	nest    func()       // run before every write after the first (another, independent writer at work in the same process)
+}
+
+// nestWriter runs f before every Write but the first.
+type nestWriter struct {
+	w io.Writer
+	n int
+	f func()
+}
+
+func (h *nestWriter) Write(p []byte) (int, error) {
+	h.n++
+	if h.n > 1 {
+		h.f()
+	}
+	return h.w.Write(p)
 }
 
 // writer abstraction over the two writing paths
@@ -175,6 +191,13 @@ func readBack(t reflect.Type, file []byte, reader string, pointer bool, failAt i
 			banks = append(banks, rb)
 			return sentinel
 		}
+		if pattern == "nested" && idx%2 == 0 {
+			// another complete read of a file of the same codec before this block has been delivered completely
+			avro.ReadFile(bytes.NewReader(file), reflect.New(t).Elem().Interface(), func(_ unsafe.Pointer, rb2 *avro.ResourceBank) error {
+				rb2.Close()
+				return nil
+			})
+		}
 		v := reflect.NewAt(t, val).Elem()
 		proj := safeProject(v)
 		res.delivered = append(res.delivered, proj)
@@ -247,7 +270,11 @@ var codecs3 = []string{"null", "deflate", "snappy"}
 
 func runRoundTrip(c *driverCtx, prop string, cs rtCase, vals []reflect.Value, cfg rtConfig, class string) {
 	w := &recWriter{}
-	werr, wpanic := safeMake(cs.mk, w, cfg, vals)
+	var wr io.Writer = w
+	if cfg.nest != nil {
+		wr = &nestWriter{w: w, f: cfg.nest}
+	}
+	werr, wpanic := safeMake(cs.mk, wr, cfg, vals)
 	file := w.out
 	inputs := make([]any, len(vals))
 	for i, v := range vals {
@@ -326,6 +353,21 @@ func driveRoundTrip(c *driverCtx, prop string) error {
 	feat := featuresFromKnown(prop)
 	// compile-time types through Encoder[T]
 	reps := c.pick(2, 40)
+	// an independent writer of the same codec at work between any two writes of the file under test
+	for si, st := range staticCases() {
+		for ci, codec := range codecs3 {
+			if !c.thorough() && (si+ci)%3 != 0 {
+				continue
+			}
+			inner := staticCases()[(si+1)%len(staticCases())]
+			innerVals := genValues(c.rng, inner.typ, 3)
+			cfg := rtConfig{Codec: codec, Block: 64, Flush: map[int]bool{}, Reader: readerKinds[(si+ci)%len(readerKinds)]}
+			cfg.nest = func() {
+				safeMake(inner.mk, &recWriter{}, rtConfig{Codec: codec, Block: 0, Flush: map[int]bool{}}, innerVals)
+			}
+			runRoundTrip(c, prop, st, genValues(c.rng, st.typ, 5), cfg, "nested-writer|"+st.name)
+		}
+	}
 	for _, st := range staticCases() {
 		for k := 0; k < reps; k++ {
 			n := 1 + c.rng.Intn(8)
